@@ -11,7 +11,7 @@
    operations under any schedule.  The theorems hold for EVERY program family accepted by the
    boolean [wf_prog]; that the service's own code is such a family is [C12_blockrelay_wf], computed
    against the graph the translator extracts from the source on every run. *)
-From Verif Require Import Lib.Base Lib.Sched Lib.Lockset Model.C12_ConfigLock Proofs.C12 Gen.C17_Extracted.
+From Verif Require Import Lib.Base Lib.Sched Lib.Lockset Model.C12_ConfigLock Proofs.C12 Proofs.C12_Data Gen.C17_Extracted.
 
 (* ------------------------------------------------------------------------------------------- *)
 (* 1. Keeps the last good configuration                                                         *)
@@ -54,6 +54,40 @@ Proof.
   intros d Hd. rewrite <- refresh_all_last_good. eapply never_nil_after_good; eauto.
 Qed.
 Print Assumptions C12_lookup_uses_last_good.
+
+(* The same under concurrency, for EVERY interleaving of the scenario machine (any number of
+   lookups, auctions, registration rounds and refreshes laid out as their programs; threads advanced
+   in any order; gates opened at any time): provided configuration refreshes do not overlap each
+   other (no reached state has two fetching refreshes between their start and their write -- the
+   scheduler's guarantee for a periodic job), the active configuration is the fold of the refreshes
+   that have written so far, in write order -- hence (C12_keeps_last_good) their last good document
+   -- and every lookup and auction that has answered was answered from the last good configuration
+   of a prefix of those writes. *)
+Theorem C12_concurrent_keeps_last_good :
+  forall (mprog : list mstep) (g : prog) (init : cfgstate) (acts : list xact),
+    Forall (act_ok mprog g) acts ->
+    (forall n, no_overlap (grun true mprog g (firstn n acts) (g0 init))) ->
+    let s := grun true mprog g acts (g0 init) in
+    x_cfg (g_x s) = last_good (g_log s) init /\
+    forall i ti, nth_error (x_info (g_x s)) i = Some ti ->
+      is_reader_kind (sp_kind (ti_sp ti)) = true ->
+      ti_res ti = RAny \/
+      exists pre post, g_log s = pre ++ post /\
+        ti_res ti = answer (sp_kind (ti_sp ti)) (last_good pre init) (sp_v (ti_sp ti)).
+Proof.
+  intros mprog g init acts Hok Hno s.
+  pose proof (GI_run true mprog g init acts (g0 init) (GI_init true mprog g init) Hno Hok) as (Hl1 & Hl2 & Hcfg & Hall).
+  fold s in Hl1, Hl2, Hcfg, Hall. split.
+  - rewrite Hcfg. apply refresh_all_last_good.
+  - intros i ti Hti Hr.
+    assert (Hlt : (i < length (x_info (g_x s)))%nat) by (apply nth_error_Some; congruence).
+    destruct (nth_error (s_threads (x_sys (g_x s))) i) as [t|] eqn:Et; [|apply nth_error_None in Et; lia].
+    destruct (nth_error (g_ents s) i) as [e|] eqn:Ee; [|apply nth_error_None in Ee; lia].
+    destruct (Hall i t ti e Et Hti Ee) as (_ & _ & _ & Hrd).
+    destruct (Hrd Hr) as [Ha|(pre & post & Hlog & Ha)]; [left; exact Ha|].
+    right. exists pre, post. split; [exact Hlog|]. rewrite Ha, refresh_all_last_good. reflexivity.
+Qed.
+Print Assumptions C12_concurrent_keeps_last_good.
 
 (* ------------------------------------------------------------------------------------------- *)
 (* 2. The lock: invariant, no deadlock, free at quiescence -- any number of threads, any schedule *)
@@ -346,3 +380,46 @@ Proof. vm_compute. reflexivity. Qed.
 Example C12_ex_leaf_mutexes :
   leaf_mutexes g_blockrelay_standard entries_blockrelay_standard <> [].
 Proof. vm_compute. discriminate. Qed.
+
+(* the hypotheses of C12_concurrent_keeps_last_good are met by a non-trivial interleaving: a lookup is
+   inside the read lock when a refresh with a new document starts, a second lookup arrives while the
+   writer waits; the first lookup is answered from the old configuration, the second from the new *)
+Definition ex_sps : list spawn := [ex_sp KLookup 1 FErr; ex_sp KRefresh 0 (FOk ex_d2); ex_sp KLookup 1 FErr].
+Definition ex_lay := layout 0 (map (program false) ex_sps).
+Definition ex_acts : list xact :=
+  [XSpawn (ex_sp KLookup 1 FErr) 0; XAdv 0; XAdv 0;
+   XSpawn (ex_sp KRefresh 0 (FOk ex_d2)) 4; XAdv 1; XAdv 1; XAdv 1; XAdv 1; XAdv 1; XAdv 1;
+   XSpawn (ex_sp KLookup 1 FErr) 11; XAdv 2; XAdv 0; XAdv 0; XAdv 1; XAdv 1; XAdv 1; XAdv 2; XAdv 2; XAdv 2; XAdv 2; XAdv 1]%nat.
+
+Example C12_ex_concurrent :
+  let mprog := fst (fst ex_lay) in
+  let g := snd (fst ex_lay) in
+  let s := grun true mprog g ex_acts (g0 (Some ex_d1)) in
+  Forall (act_ok mprog g) ex_acts /\
+  (forall n, no_overlap (grun true mprog g (firstn n ex_acts) (g0 (Some ex_d1)))) /\
+  x_cfg (g_x s) = Some ex_d2 /\ g_log s = [ex_rf (FOk ex_d2)] /\
+  map ti_res (x_info (g_x s)) = [RFee 1; RDone; RFee 2] /\
+  all_finished (x_sys (g_x s)) = true.
+Proof.
+  intros mprog g s.
+  pose proof (layout_laid (map (program false) ex_sps)) as Hlay.
+  change (layout 0 (map (program false) ex_sps)) with ex_lay in Hlay.
+  assert (Hlaid : forall k sp e, nth_error ex_sps k = Some sp -> nth_error (snd ex_lay) k = Some e ->
+                                 laid mprog g e (program false sp)).
+  { intros k sp e Hk He. unfold mprog, g. destruct ex_lay as [[ms g0'] es] eqn:E. cbn [fst snd] in *.
+    apply (Hlay k (program false sp) e); [|exact He]. rewrite nth_error_map, Hk. reflexivity. }
+  split; [|split].
+  - unfold ex_acts.
+    repeat (apply Forall_cons;
+            [cbn [act_ok];
+             first [exact I | apply (Hlaid 0%nat); reflexivity | apply (Hlaid 1%nat); reflexivity | apply (Hlaid 2%nat); reflexivity]|]).
+    apply Forall_nil.
+  - intro n. apply no_overlap_b_sound.
+    assert (Hall : forallb (fun k => no_overlap_b (grun true mprog g (firstn k ex_acts) (g0 (Some ex_d1)))) (seq 0 (S (length ex_acts))) = true)
+      by (vm_compute; reflexivity).
+    destruct (Nat.le_gt_cases n (length ex_acts)) as [Hle|Hgt].
+    + rewrite forallb_forall in Hall. apply Hall. apply in_seq. lia.
+    + rewrite firstn_all2 by lia. rewrite forallb_forall in Hall.
+      rewrite <- (firstn_all ex_acts). apply Hall. apply in_seq. lia.
+  - vm_compute. auto.
+Qed.
